@@ -142,6 +142,37 @@ def isolated(sk, *xs):
     return True
 
 
+def numiters(sk):
+    """Compute.numIters on real trace files equals the number of loop bodies executed (also for a rank whose loop is never entered)"""
+    import os, shutil, tempfile
+    from fibertree.model.compute import Compute
+    A, B = sk["A"], sk["B"]
+    d = os.path.join(tempfile.gettempdir(), "fvsym-c15-%d" % os.getpid())
+    os.makedirs(d, exist_ok=True)
+    try:
+        reset_metrics()
+        a = kernels.mk_tensor(["M", "K"], A, sk.get("explicit", False))
+        b = kernels.mk_tensor(["K"], B, False)
+        z = Tensor(rank_ids=["M"], shape=[len(A)])
+        Metrics.beginCollect(os.path.join(d, "t"))
+        Metrics.trace("M")
+        Metrics.trace("K")
+        nm = nk = 0
+        for m, (z_ref, a_k) in z.getRoot() << a.getRoot():
+            nm += 1
+            for k, (a_val, b_val) in a_k & b.getRoot():
+                nk += 1
+                z_ref += a_val * b_val
+        Metrics.endCollect()
+        gm = Compute.numIters(os.path.join(d, "t-M-iter.csv"))
+        gk = Compute.numIters(os.path.join(d, "t-K-iter.csv"))
+        if (gm, gk) != (nm, nk):
+            return fail("numIters reports M=%r K=%r, loop bodies executed M=%r K=%r" % (gm, gk, nm, nk))
+        return True
+    finally:
+        shutil.rmtree(d, ignore_errors=True)
+
+
 def obligations(tier):
     q = tier == "quick"
     obs = []
@@ -155,9 +186,12 @@ def obligations(tier):
             if kind == "dot" and variant != "K" or variant.startswith("MK1K0"):
                 if traces != "none":
                     continue       # tiled dataflows rename the ranks (K.1/K.0): only the counters are checked
-            for explicit in ((False,) if q else (False, True)):
+            for explicit in ((False, True) if (not q or (kind in ("reduce", "mv") and variant in ("row", "MK") and traces != "none")) else (False,)):
                 obs.append(Ob("transparent/%s/%s/%s%s" % (kind, variant, traces, "/e" if explicit else ""), "transparent",
                               dict(kind=kind, variant=variant, adims=adims, B=B, traces=traces, explicit=explicit), names("v", box_size(adims)), []))
+    for i, (A, B) in enumerate([([[1, 0, 2], [0, 3, 4]], [5, 6, 0]), ([[0, 0, 0], [0, 0, 0]], [1, 1, 1]), ([[1, 1, 1], [0, 0, 0]], [0, 0, 0]), ([[0, 0, 1], [1, 0, 0]], [1, 0, 1])]):
+        obs.append(Ob("numiters/%d" % i, "numiters", dict(A=A, B=B), [], [], concrete=True))
+        obs.append(Ob("numiters/%d/explicit" % i, "numiters", dict(A=A, B=B, explicit=True), [], [], concrete=True))
     for kind, variant, adims, B in [("mv", "MK", [2, 3], [2, 0, 3]), ("dot", "K", [3], [2, 0, 3])] + ([] if q else [("mm", "MNK", [2, 2], [[2, 0], [0, 3]])]):
         for prev in ("other", "same", "counts"):
             for traces in ("all", "iter"):
